@@ -20,6 +20,10 @@ CONSTANTS Starts,      \* set of start URL strings (handle 1)
 
 Free == IF \E h \in Handles : ~objs[h].live THEN {CHOOSE h \in Handles : ~objs[h].live /\ \A k \in Handles : ~objs[k].live => h <= k} ELSE {}
 
+(* a URL obtained from Parser.NewUrl() instead of a parse: the empty record (no scheme, null host, empty non-opaque path) *)
+NewUrlInit == LET os == [h \in Handles |-> IF h = 1 THEN Obj(EmptyUrl) ELSE Dead] IN
+              /\ objs = os /\ actor = 1
+              /\ hist = <<StepRec("newurl", 1, 0, "", <<>>, <<>>, FALSE, os)>>
 MInit == \E s \in Starts :
            LET r == ParseO(s, None, None, POpts)
                os == [h \in Handles |-> IF h = 1 THEN Obj(r.u) ELSE Dead] IN
